@@ -247,7 +247,8 @@ pub fn fen_rule_ok(line: &str) -> bool {
             Ok(p) => {
                 let full = p.to_fen();
                 let want: Vec<&str> = full.split_whitespace().collect();
-                p.is_sane() && rest[..end] == want[..end]
+                // (the full-move number of a FEN starts at 1)
+                p.is_sane() && p.fmn >= 1 && rest[..end] == want[..end]
             }
             Err(_) => false,
         };
@@ -447,16 +448,7 @@ pub fn check(plans: &[Plan], recs: &[RunRec]) -> Outcome {
             ));
         }
         EndReason::InputBlocked => {} // reported by check_input_blocked
-        EndReason::ExitOverdue => {
-            out.violations.push(Violation::new(
-                "exit_overdue",
-                format!(
-                    "{} was seen but the command loop was still blocked after other threads did {} more work ticks",
-                    if quit_seen { "quit" } else { "end-of-input" },
-                    super::super::kernel::EXIT_ALLOW_TICKS
-                ),
-            ));
-        }
+        EndReason::ExitOverdue => {} // reported by check_input_blocked
         EndReason::StepCap | EndReason::TickCap | EndReason::Deadlock => {
             // Only the input thread's own behaviour counts: if it burned the budget
             // itself (or nothing can run) it is wedged; if search threads used it up
